@@ -19,6 +19,9 @@
         //@ loop 0
                 invariant bcd_fold(data@, iter.index@ as nat, 0xff) == Some(rv as nat),
         //@ end
+        open spec fn self_delimiting() -> bool { false }
+        proof fn law_dec_bounds(b: Seq<u8>) {}
+        proof fn law_dec_frame(b: Seq<u8>, s: Seq<u8>) {}
         //@ tag enc.law_inverse.bcd.u8 C17 C01
         proof fn law_inverse(v: &u8) {
             lemma_bcd_rev_msb(*v as nat);
@@ -48,6 +51,9 @@
         //@ loop 0
                 invariant bcd_fold(data@, iter.index@ as nat, 0xffff) == Some(rv as nat),
         //@ end
+        open spec fn self_delimiting() -> bool { false }
+        proof fn law_dec_bounds(b: Seq<u8>) {}
+        proof fn law_dec_frame(b: Seq<u8>, s: Seq<u8>) {}
         //@ tag enc.law_inverse.bcd.u16 C17 C01
         proof fn law_inverse(v: &u16) {
             lemma_bcd_rev_msb(*v as nat);
@@ -77,6 +83,9 @@
         //@ loop 0
                 invariant bcd_fold(data@, iter.index@ as nat, 0xffff_ffff) == Some(rv as nat),
         //@ end
+        open spec fn self_delimiting() -> bool { false }
+        proof fn law_dec_bounds(b: Seq<u8>) {}
+        proof fn law_dec_frame(b: Seq<u8>, s: Seq<u8>) {}
         //@ tag enc.law_inverse.bcd.u32 C17 C01
         proof fn law_inverse(v: &u32) {
             lemma_bcd_rev_msb(*v as nat);
@@ -106,6 +115,9 @@
         //@ loop 0
                 invariant bcd_fold(data@, iter.index@ as nat, 0xffff_ffff_ffff_ffff) == Some(rv as nat),
         //@ end
+        open spec fn self_delimiting() -> bool { false }
+        proof fn law_dec_bounds(b: Seq<u8>) {}
+        proof fn law_dec_frame(b: Seq<u8>, s: Seq<u8>) {}
         //@ tag enc.law_inverse.bcd.u64 C17 C01
         proof fn law_inverse(v: &u64) {
             lemma_bcd_rev_msb(*v as nat);
@@ -135,6 +147,9 @@
         //@ loop 0
                 invariant bcd_fold(data@, iter.index@ as nat, 0xffff_ffff_ffff_ffff) == Some(rv as nat),
         //@ end
+        open spec fn self_delimiting() -> bool { false }
+        proof fn law_dec_bounds(b: Seq<u8>) {}
+        proof fn law_dec_frame(b: Seq<u8>, s: Seq<u8>) {}
         //@ tag enc.law_inverse.bcd.usize C17 C01
         proof fn law_inverse(v: &usize) {
             lemma_bcd_rev_msb(*v as nat);
